@@ -133,6 +133,20 @@ def const_fold_widths():
 
 
 @design
+def fold_in_place(w=1):
+    """gates with one constant operand that constant propagation replaces one-for-one (same number of nets
+    before and after): by a constant, by a plain wire, by an inverter"""
+    i, j = _io([w, w])
+    zero, ones = pyrtl.Const(0, bitwidth=w), pyrtl.Const(2 ** w - 1, bitwidth=w)
+    _out(i & zero, 'out0')
+    _out(i | j, 'out1')
+    _out(i | zero, 'out2')
+    _out(j ^ ones, 'out3')
+    _out(j & ones, 'out4')
+    _out(i ^ zero, 'out5')
+
+
+@design
 def const_select(w=3):
     """muxes whose select operand is a constant (elaboration-time flags), both polarities and both forms"""
     a, b = _io([w, w])
@@ -345,6 +359,19 @@ def mem_chain(aw=1, dw=2, stages=3):
 
 
 @design
+def mem_clear(aw=2, dw=3):
+    """a memory with a data port, a clear port whose data is the constant 0 and a port writing another constant"""
+    ra, wa, wd, we, ca, clr = _io([aw, aw, dw, 1, aw, 1])
+    m = pyrtl.MemBlock(bitwidth=dw, addrwidth=aw, name='m', asynchronous=True, max_write_ports=3)
+    m[wa] <<= pyrtl.MemBlock.EnabledWrite(wd, we & ~clr)
+    m[ca] <<= pyrtl.MemBlock.EnabledWrite(pyrtl.Const(0, bitwidth=dw), clr & ~we)
+    m2 = pyrtl.MemBlock(bitwidth=dw, addrwidth=aw, name='m2', asynchronous=True)
+    m2[wa] <<= pyrtl.MemBlock.EnabledWrite(pyrtl.Const(2 ** dw - 1, bitwidth=dw), we)
+    _out(m[ra], 'out0')
+    _out(m2[ra], 'out1')
+
+
+@design
 def rom_list(aw=2, dw=4):
     a, = _io([aw])
     data = [(3 * i + 1) % (2 ** dw) for i in range(2 ** aw)]
@@ -553,6 +580,8 @@ def family(tier='quick', seed=0):
     add('reg_chain')
     add('const_select')
     add('const_fold_widths')
+    add('fold_in_place')
+    add('fold_in_place', w=3)
     add('regs_same_next')
     add('reg_chain', w=1, n=3)
     add('reg_const_next', w=2)
@@ -564,6 +593,7 @@ def family(tier='quick', seed=0):
     add('mem_two_writes')
     add('mem_feeds_logic')
     add('mem_chain')
+    add('mem_clear')
     add('mem_chain', stages=2)
     add('mem_const_addr')
     add('mem_reg_ports')
